@@ -137,3 +137,8 @@ pub fn resize_none(v: &mut Vec<Option<RegionT>>, n: usize)
     requires old(v)@.len() == 0
     ensures final(v)@.len() == n, forall|i: int| 0 <= i < n ==> final(v)@[i] is None
 { unimplemented!() }
+impl MmapT {
+    pub uninterp spec fn mlen(&self) -> nat;
+}
+// write_to_mmap (U22): copies inside the mapping; out of bounds is a panic
+#[verifier::external_body] pub fn write_to_mmap(mmap: &MmapT, offset: usize, data: &[u8]) requires offset + data@.len() <= mmap.mlen() { unimplemented!() }
